@@ -53,4 +53,24 @@ Definition handle_net (cmd : string) (args : list sexp) : option sexp :=
         end
     | _ => Some (err "bad args")
     end
+  else if String.eqb cmd "net.extend" then
+    (* the `naunet extend` pipeline (Model.Network.extend): reactions, reduce ("none" | ids), remove ids, dups flag,
+       append steps [[(x, y) ...], type]; replies with (reactant ids, product ids, type, index) of the result in order *)
+    match args with
+    | [rs; red; rem; A dups; aps] =>
+        let get_pair := fun x => match x with L [a; b] => match get_nat a, get_nat b with Some a, Some b => Some (a, b) | _, _ => None end | _ => None end in
+        let get_ap := fun x => match x with
+                               | L [m; t] => match get_list get_pair m, get_Z t with
+                                             | Some m, Some t => Some ((fun x => option_map snd (find (fun p => Nat.eqb (fst p) x) m)), t)
+                                             | _, _ => None end
+                               | _ => None end in
+        match get_list get_rx rs, (match red with A "none" => Some None | l => option_map Some (get_list get_nat l) end),
+              get_list get_nat rem, get_list get_ap aps with
+        | Some rs, Some red, Some rem, Some aps =>
+            let s := extend red rem (String.eqb dups "1") aps rs in
+            Some (L (map (fun r => L [L (map ns (rx_reac r)); L (map ns (rx_prod r)); zs (k_type (rx_key r)); zs (rx_idx r)]) (rl s)))
+        | _, _, _, _ => Some (err "bad extend input")
+        end
+    | _ => Some (err "bad args")
+    end
   else None.
